@@ -18,20 +18,28 @@ BACKENDS = ["debug", "internal", "tbb", "omp"]
 
 def prop_oracle(b, hw, ns, reps):
     """what the PROPERTY TEXT requires of the observed reports (independent of the Coq model);
-    returns a list of (position, required) that fail"""
+    ns: ints (initTaskingSystem(n)) and 'u' / 's' (a use: parallel_for / schedule);  returns a list of (position, required) that fail"""
     out = []
     if len(reps) != len(ns) + 1:
-        return [(-1, "one report per init")]
+        return [(-1, "one report per operation")]
     if reps[0] != 0:
         out.append((0, "0 before initialisation"))
+    inits = 0
     for i, n in enumerate(ns):
         r = reps[i + 1]
+        if n in ("u", "s"):
+            if inits == 0 and r != 0:
+                out.append((i + 1, "0 before initialisation (a parallel_for / schedule() is not an initialisation)"))
+            elif inits > 0 and r != reps[i]:
+                out.append((i + 1, "unchanged by a parallel_for / schedule() (%d)" % reps[i]))
+            continue
+        inits += 1
         if n > 0:
             want = 1 if b == "debug" else n
             if r != want:
                 out.append((i + 1, "after initTaskingSystem(%d): %d" % (n, want)))
         else:
-            if i == 0 and not (r > 0 and (b == "debug" and r == 1 or b != "debug" and r == hw)):
+            if inits == 1 and not (r > 0 and (b == "debug" and r == 1 or b != "debug" and r == hw)):
                 out.append((i + 1, "first init with n <= 0: the positive hardware-derived default (%d)" % (1 if b == "debug" else hw)))
             elif r <= 0:
                 out.append((i + 1, "positive after an init"))
@@ -155,6 +163,11 @@ def run(ctx):
         seqs = [list(t) for k in range(1, exh + 1) for t in itertools.product(vals, repeat=k)]
         if not ctx.thorough():
             seqs += [[r.choice(vals) for _ in range(4)] for _ in range(150)]
+        # uses of the tasking system (u: a parallel_for, s: a schedule()d closure) before the first init and between inits
+        uvals = [-1, 1, 3, "u", "s"] if not ctx.thorough() else [-1, 0, 1, 3, 2 * (model_hw if b != "debug" else 16), "u", "s"]
+        useqs = [list(t) for k in range(1, 4) for t in itertools.product(uvals, repeat=k) if any(x in ("u", "s") for x in t)]
+        useqs += [[r.choice(vals + ["u", "u", "s"]) for _ in range(r.randint(3, 5))] for _ in range(ctx.pick(60, 400))]
+        seqs += [s for s in useqs if any(x in ("u", "s") for x in s)]
         cases = [" ".join(map(str, s)) for s in seqs]
         mcases = ["%s %d %s" % (b, model_hw if b != "debug" else 16, c) for c in cases]
         rc, hl, herr = run_batch(ctx, hx[b], "seq", cases, b, timeout=ctx.pick(300, 1200))
@@ -172,10 +185,10 @@ def run(ctx):
         for s, c, h, m in zip(seqs, cases, hl, ml):
             hist_len[len(s)] = hist_len.get(len(s), 0) + 1
             for n in s:
-                key = "hw" if n == model_hw and b != "debug" else ("2hw" if n == 2 * model_hw and b != "debug" else str(n))
+                key = "use" if n in ("u", "s") else "hw" if n == model_hw and b != "debug" else ("2hw" if n == 2 * model_hw and b != "debug" else str(n))
                 hist_n[key] = hist_n.get(key, 0) + 1
             mrep = m.split(" workers=")[0]
-            if len(s) >= 2 and len(set(s)) >= 2:
+            if len(s) >= 2 and len(set(map(str, s))) >= 2:
                 ctx.nontriv(("seq", b, c))
             if h == mrep or reported or h.startswith("HANG"):
                 continue
@@ -255,6 +268,50 @@ def run(ctx):
                               {"backend": b, "case": {"earlier_init": a, "init": n, "loop_size": size, "body_us": dur}, "observed": l,
                                "nested_inner_loop": "parallel_for(8), body spins 200 us" if dur == -2 else None,
                                "required": {"count": want_count, "report": lim, "max_inside_at_most": lim, "distinct_threads_at_most": lim}})
+    # ---- concurrent re-initialisation: one thread keeps looping parallel_for while the main thread alternates
+    # initTaskingSystem(n) / initTaskingSystem(m); never more than max(n, m) threads inside bodies at once
+    # (TBB: the new global_control is created before the old one is released — theorem tbb_limit_during_reinit).
+    # Not run on the internal backend (re-initialising destroys the scheduler another thread is using: out of scope) nor on
+    # OpenMP (omp_set_num_threads only sets the CALLING thread's ICV: loops issued by another thread are not limited at all).
+    cre_obs = {}
+    for b in ("tbb", "debug"):
+        if b not in hws:
+            continue
+        ms = ctx.pick(500, 2500)
+        ccases = [(2, 2, ms), (2, 4, ms), (3, 1, ms), (1, 1, ms)] if b == "tbb" else [(2, 3, ms // 2)]
+        rc, cl, cerr = run_batch(ctx, hx[b], "cre", ["%d %d %d" % c for c in ccases], b, timeout=120)
+        if rc != 0 or len(cl) != len(ccases):
+            ctx.violation("%s backend: the concurrent re-initialisation harness died (rc=%d)" % (b, rc),
+                          {"backend": b, "stderr_tail": cerr[-1500:]}, found_input=False)
+            continue
+        ctx.count(len(ccases))
+        for c, l in zip(ccases, cl):
+            n, m, _ = c
+            f = dict(x.split("=") for x in l.split() if "=" in x)
+            lim = 1 if b == "debug" else max(n, m)
+            cre_obs["%s:%d,%d" % (b, n, m)] = l
+            if "max_inside" not in f:
+                ctx.violation("%s backend: concurrent re-initialisation case %s: %s" % (b, c, l), {"backend": b, "case": c, "observed": l})
+                continue
+            if int(f["max_inside"]) <= lim:
+                if int(f.get("bodies", "0")) > 0:
+                    ctx.nontriv(("cre", b, n, m))
+                continue
+            # confirm on a second run of the same case
+            rc2, o2, e2 = ctx.run_exe(hx[b], ["cre"], stdin="%d %d %d\n" % c, timeout=120)
+            f2 = dict(x.split("=") for x in o2.split() if "=" in x)
+            if "max_inside" in f2 and int(f2["max_inside"]) > lim:
+                ctx.violation("%s backend: while the main thread alternates initTaskingSystem(%d) / initTaskingSystem(%d), a parallel_for loop "
+                              "on another thread had %s (second run: %s) bodies running at once; required: never more than max(%d,%d) = %d"
+                              % (b, n, m, f["max_inside"], f2["max_inside"], n, m, lim),
+                              {"backend": b, "case": {"init_a": n, "init_b": m, "duration_ms": c[2],
+                                                      "scenario": "thread L loops parallel_for(64, body spins 60 us) and counts bodies inside at once; "
+                                                                  "main thread alternates initTaskingSystem(a)/initTaskingSystem(b) every ~150 us"},
+                               "observed": [l, o2.strip()], "required": {"max_inside_at_most": lim}})
+                break          # one report per backend; the other cases are in the coverage
+            else:
+                ctx.cov.setdefault("unconfirmed_concurrency_excess", []).append({"backend": b, "case": c, "first": l, "second": o2.strip()})
+    ctx.cov["concurrent_reinit_observations"] = cre_obs
     ctx.cov.setdefault("transient_hangs", [])
     ctx.cov["hardware_default_per_backend"] = hws
     ctx.cov["init_value_histogram"] = hist_n
@@ -274,6 +331,8 @@ def run(ctx):
     ctx.assumptions += [
         "ORACLES: that tbb::global_control(max_allowed_parallelism) and omp_set_num_threads ENFORCE their limit is their contract "
         "(measured: max threads inside a parallel_for body); tbb::global_control::active_value = min of live controls or the default",
+        "OpenMP: omp_set_num_threads sets the calling thread's ICV only — loops issued from a thread other than the initialising one are not "
+        "limited (observed: 10-14 bodies at once after initTaskingSystem(2)); the property is checked for loops issued by the initialising thread",
         "hw (the backend's hardware default) is a Section variable, assumed > 0 and probed per backend at run time",
         "Internal: StartThreads' loop bounds, GetNumTaskThreads and Initialize are re-derived from the AST each run; that ~TaskScheduler joins "
         "the old workers is read from TaskScheduler.cpp, not re-derived; loops are issued from the initialising thread",
